@@ -5,6 +5,9 @@ CONSTANTS
   EmitUnlocked = FALSE
   StallFire = TRUE
   FixedTimer = TRUE
+  Split = TRUE
+  PeekStop = TRUE
+  WireGaps = FALSE
 SPECIFICATION GSpec
 INVARIANT EmitSched
 CHECK_DEADLOCK FALSE
